@@ -174,6 +174,11 @@ fn check_insert(enc: &'static Encoding, content: &str, html: bool) -> Option<Str
 
 /// meta charset: at most one switch, only for later tokens, sink notified in between.
 fn check_meta(enc0: &'static Encoding, label: &str, second_label: Option<&str>, cuts: &[usize], scan_mode: bool, unit: &[u8]) -> Option<String> {
+    check_meta_form(enc0, label, second_label, cuts, scan_mode, unit, false)
+}
+
+/// `http_equiv`: the first declaration is written as `<meta http-equiv="Content-Type" content="text/html; charset=L">`.
+fn check_meta_form(enc0: &'static Encoding, label: &str, second_label: Option<&str>, cuts: &[usize], scan_mode: bool, unit: &[u8], http_equiv: bool) -> Option<String> {
     let unit0: Vec<u8> = unit.to_vec();
     let labels: Vec<&str> = std::iter::once(label).chain(second_label).collect();
     // document: T0 <meta l1> T1 [<meta l2> T2]
@@ -183,7 +188,16 @@ fn check_meta(enc0: &'static Encoding, label: &str, second_label: Option<&str>, 
     let mut texts = vec![(0usize, d.len())];
     let mut meta_ends = vec![];
     for (i, l) in labels.iter().enumerate() {
-        d.extend_from_slice(if i == 0 { format!("<meta charset={l}>") } else { format!("<meta charset=\"{l}\">") }.as_bytes());
+        d.extend_from_slice(
+            if i == 0 && http_equiv {
+                format!("<meta http-equiv=\"Content-Type\" content=\"text/html; charset={l}\">")
+            } else if i == 0 {
+                format!("<meta charset={l}>")
+            } else {
+                format!("<meta charset=\"{l}\">")
+            }
+            .as_bytes(),
+        );
         meta_ends.push(d.len());
         let s = d.len();
         d.push(b'B' + i as u8);
@@ -296,7 +310,7 @@ pub fn replay(case: &Value) -> Option<String> {
         "meta" => {
             let cuts: Vec<usize> = serde_json::from_value(case["cuts"].clone()).ok()?;
             let unit = case["unit"].as_str().map(unhex).unwrap_or_else(|| vec![0xE9]);
-            check_meta(enc, case["label"].as_str()?, case["label2"].as_str(), &cuts, case["scan_mode"].as_bool().unwrap_or(false), &unit)
+            check_meta_form(enc, case["label"].as_str()?, case["label2"].as_str(), &cuts, case["scan_mode"].as_bool().unwrap_or(false), &unit, case["http_equiv"].as_bool().unwrap_or(false))
         }
         _ => None,
     }
@@ -448,7 +462,7 @@ pub fn run_check(ctx: &Ctx) -> i32 {
     }
     ctx.level_done("(b) 7 contents x {html,text} x 36 encodings: inserted bytes == encoding_rs encode (NCRs for unmappable)");
     // (c) meta charset
-    let labels = ["windows-1251", "utf-8", "UTF-16", "shift_jis", "latin1", "bogus-label", "koi8-r"];
+    let labels = ["windows-1251", "utf-8", "UTF-16", "shift_jis", "latin1", "bogus-label", "koi8-r", "utf-16be", "iso-2022-jp", "replacement"];
     for enc0 in [encoding_rs::UTF_8, encoding_rs::WINDOWS_1252, encoding_rs::KOI8_R] {
         for l in labels {
             for l2 in [None, Some("windows-1251"), Some("gbk")] {
@@ -456,17 +470,19 @@ pub fn run_check(ctx: &Ctx) -> i32 {
                 // pairs that are well-formed in UTF-8 AND in the legacy encodings (a decoder that
                 // keeps reading UTF-8 after the switch gives a different string)
                 for unit in [&[0xE9u8][..], &[0xC3, 0xA9], &[0xDF, 0xAB], &[0x83, 0x41]] {
-                    let doc_len = 2 * unit.len() + 4 + format!("<meta charset={l}>").len() + l2.map(|x: &str| format!("<meta charset=\"{x}\">").len() + 1 + unit.len()).unwrap_or(0);
-                    let mut cutsets: Vec<Vec<usize>> = vec![vec![]];
-                    cutsets.extend((1..doc_len).map(|c| vec![c]));
-                    for cuts in cutsets {
-                        ctx.exec(cuts.len() + 2);
-                        ctx.validated(1);
-                        for scan_mode in [false, true] {
-                            if let Some(msg) = check_meta(enc0, l, l2, &cuts, scan_mode, unit) {
-                                let case = json!({"kind": "meta", "encoding": enc0.name(), "label": l, "label2": l2, "cuts": cuts, "scan_mode": scan_mode, "unit": hex(unit)});
-                                let c2 = case.clone();
-                                ctx.violation(msg, case, &|| replay(&c2));
+                    for http_equiv in [false, true] {
+                        let doc_len = 2 * unit.len() + 4 + format!("<meta charset={l}>").len() + if http_equiv { 48 } else { 0 } + l2.map(|x: &str| format!("<meta charset=\"{x}\">").len() + 1 + unit.len()).unwrap_or(0);
+                        let mut cutsets: Vec<Vec<usize>> = vec![vec![]];
+                        cutsets.extend((1..doc_len).map(|c| vec![c]));
+                        for cuts in cutsets {
+                            ctx.exec(cuts.len() + 2);
+                            ctx.validated(1);
+                            for scan_mode in [false, true] {
+                                if let Some(msg) = check_meta_form(enc0, l, l2, &cuts, scan_mode, unit, http_equiv) {
+                                    let case = json!({"kind": "meta", "encoding": enc0.name(), "label": l, "label2": l2, "cuts": cuts, "scan_mode": scan_mode, "unit": hex(unit), "http_equiv": http_equiv});
+                                    let c2 = case.clone();
+                                    ctx.violation(msg, case, &|| replay(&c2));
+                                }
                             }
                         }
                     }
@@ -474,7 +490,7 @@ pub fn run_check(ctx: &Ctx) -> i32 {
             }
         }
     }
-    ctx.level_done("(c) 3 initial encodings x 7 meta charset labels x {single, followed by a second declaration} x {text captured, tag-scan mode} x 4 non-ASCII units (malformed in UTF-8 / well-formed in UTF-8 and in the legacy encodings) x every cut");
+    ctx.level_done("(c) 3 initial encodings x 10 meta charset labels (incl. non-ASCII-compatible ones, which must be ignored) x {charset attribute, http-equiv content} x {single, followed by a second declaration} x {text captured, tag-scan mode} x 4 non-ASCII units (malformed in UTF-8 / well-formed in UTF-8 and in the legacy encodings) x every cut");
     ctx.finish(
         "model_checking",
         RULE,
